@@ -80,7 +80,9 @@ def run_pbt_shard(spec):
     """spec: dict(binary, gen, cfg, seed, cases, max_size, scratch, name, timeout)"""
     out = os.path.join(spec["scratch"], spec["name"] + ".json")
     marker = os.path.join(spec["scratch"], spec["name"] + ".marker")
-    env = san_env({"RC_PARAMS": "seed=%d max_success=%d max_size=%d max_discard_ratio=50" % (spec["seed"], spec["cases"], spec["max_size"]),
+    # jobs whose single cases take seconds (thousands of edges) are not shrunk by the library: hundreds of re-executions per shard
+    noshrink = " noshrink=1" if (spec.get("extra", {}) or {}).get("noshrink") else ""
+    env = san_env({"RC_PARAMS": "seed=%d max_success=%d max_size=%d max_discard_ratio=50%s" % (spec["seed"], spec["cases"], spec["max_size"], noshrink),
                    "VERIF_SCRATCH": spec["scratch"]})
     cfg = ",".join("%s=%s" % kv for kv in spec["cfg"].items())
     cmd = [spec["binary"], "--gen", spec["gen"], "--cfg", cfg, "--out", out, "--marker", marker, "--samples", "3"]
@@ -182,7 +184,7 @@ def register_engine(name, fn):
 
 
 # ----------------------------------------------------------------- replay / minimise
-def replay_case(replay_bin, text, scratch, tag="r", timeout=60):
+def replay_case(replay_bin, text, scratch, tag="r", timeout=300):
     p = os.path.join(scratch, "replay_%s_%d.case" % (tag, os.getpid()))
     with open(p, "w") as f:
         f.write(text)
@@ -415,7 +417,7 @@ def do_replay(pid, path):
         return 2
     scratch = make_scratch()
     try:
-        rc, out = replay_case(bins[("replay", executor, config)], text, scratch, timeout=900 if CASE_SEP in text else 60)
+        rc, out = replay_case(bins[("replay", executor, config)], text, scratch, timeout=900 if CASE_SEP in text else 300)
     finally:
         shutil.rmtree(scratch, ignore_errors=True)
     print(out)
